@@ -6,6 +6,14 @@ tie        : correspondence of the Float-instantiated model (same definitions) w
              sampled and boundary (m, p) pairs; pair extraction through the driver on integer lists
 search     : exhaustive 2^16 byte pairs on the implementation for uint8 MP / PM and for the amplitude table with several monotone
              tables; dtype x order x band-axis x collapsed matrix against an independent numpy statement; AmpSF sub-region reads
+quantisation (arbitrary in-range values, Props.C08 encQ_* / nearestR_* / ampSF_quant_* / truncZ_*):
+  proof    : |M - |z|| <= 1/2, 0 <= P < 2^b incl. the wrap point, phase error <= pi/2^b mod 2 pi, decode error <= 1/2 + |z| pi/2^b
+             (and the chord form), idempotence, nearest table entry for every real magnitude and every non-decreasing table, ties lower,
+             AmpSF |sf n - v| <= |sf|/2, truncation < 1 step; all for ANY nearest-integer rule (instantiated at half-even and round)
+  tie      : the same Spec definitions run at Float (driver ops encq / ampq / trunc / nearest) against the implementation on off-grid
+             inputs; a difference counts only when the model's un-rounded value is outside a tie band of a half-integer
+             (Props.C08 IsNearest.stable is the reason a band suffices)
+  oracle   : the bounds themselves, evaluated in float64 numpy on the complex64 inputs handed to sarpy (independent of the model)
 """
 import json
 import struct
@@ -15,7 +23,29 @@ import numpy
 from common import Check, Driver, Infra, sarpy_guard
 
 REQUIRED = ['deinterleave_interleave', 'interleave_deinterleave', 'deinterleave_length', 'pick_involutive', 'decode_magnitude',
-            'decodeMP_zero', 'arg_polar', 'encodeMP_decodeMP', 'countBelow_sorted', 'nearestIndex_exact', 'ampSF_inverse', 'ampSF_roundtrip']
+            'decodeMP_zero', 'arg_polar', 'encodeMP_decodeMP', 'countBelow_sorted', 'nearestIndex_exact', 'ampSF_inverse', 'ampSF_roundtrip',
+            # rounding: any nearest-integer rule; the code's half-to-even rule and Mathlib's round are instances
+            'rhe_err', 'rhe_tie_even', 'rhe_intCast', 'isNearest_rhe', 'isNearest_round', 'IsNearest.intCast', 'IsNearest.natCast',
+            'IsNearest.mem_Icc', 'IsNearest.stable',
+            # quantised magnitude / phase encoder
+            'encodeMP_eq', 'wrapPow_int', 'encodeMPq_eq', 'encodeMPq_realOps', 'encQ_mag_err', 'encQ_mag_nonneg', 'encQ_mag_range',
+            'encQ_phase_range', 'encQ_round_range', 'encQ_phase_wrap', 'encQ_phase_nowrap', 'encQ_phase_wrap_tie_rhe', 'encQ_phase_key',
+            'encQ_phase_err', 'polar_sub_le', 'encQ_decode_err_chord', 'encQ_decode_err', 'encQ_decode_err_rhe', 'encQ_decode_err_round',
+            'encodeMPq_decodeMP', 'encodeMPq_idempotent', 'encodeMPq_decodeMP_zero',
+            # amplitude table, every real magnitude, every non-decreasing table
+            'countBelow_lt_iff', 'nearestR_eq', 'nearestR_optimal', 'nearestR_optimal_getElem', 'nearestR_below', 'nearestR_above',
+            'nearestR_tie_lower', 'nearestR_half_gap',
+            # amplitude scale factor with integer raw formats; plain integer IQ truncation
+            'encodeAmpSF_eq', 'ampSF_quant_err', 'ampSF_quant_range', 'ampSF_quant_err_sq', 'ampSF_quant_err_norm', 'ampSF_fixed_point',
+            'truncZero_eq', 'truncZ_err', 'truncZ_sign', 'truncZ_intCast',
+            # supporting lemmas (closed forms, ranges of the un-rounded values, polar forms, sorted-table access)
+            'decodeMP_eq', 'decodeMP_realOpsR', 'encodeMP_realOpsR', 'realOps_eq', 'mag_nonneg', 'phase_nonneg', 'phase_lt', 'phase_eq_arg',
+            'tScaled_nonneg', 'tScaled_lt', 'tScaled_phase', 'pair_as_polar', 'polar_as_pair', 'dist_as_norm', 'getD_eq', 'sorted_mono',
+            'countBelow_le_length']
+
+# tie bands (in quantisation steps) around a half-integer inside which the float32 arithmetic of the implementation may legitimately
+# round either way; measured noise of the un-rounded float32 values against float64: 8 bit 3e-5 steps, 16 bit 7.5e-3 steps
+BAND = {8: 1e-3, 16: 3e-2}
 
 
 def fb(x):
@@ -199,10 +229,406 @@ def ampsf(rng, fails, stats, n):
             if z.shape != w.shape or not numpy.allclose(z, w, rtol=2e-6, atol=1e-6):
                 fails.append({'kind': 'ampsf', 'msg': f'AmpSF decode of vectors [{a}:{b}:{st}] differs from AmpSF[v]*(I + jQ)', 'case': case})
                 break
-            back = ff.inverse(z, (slice(a, b, st), slice(0, ns, 1)))
+            try:
+                back = ff.inverse(z, (slice(a, b, st), slice(0, ns, 1)))
+            except Exception as e:
+                fails.append({'kind': 'ampsf', 'msg': f'AmpSF encode raised {type(e).__name__}: {e}', 'case': case})
+                break
             if numpy.dtype(dt).kind == 'i' and not numpy.array_equal(back, raw[sub]):
                 fails.append({'kind': 'ampsf', 'msg': f'AmpSF encode(decode(x)) != x for integer samples, vectors [{a}:{b}:{st}]', 'case': case})
                 break
+
+
+# ----------------------------------------------------------------------------------------------------------------------
+# quantisation bounds for arbitrary in-range values: bound oracles on the implementation (float64 numpy on the complex64
+# inputs actually handed to sarpy; independent of the Lean model).  Every oracle takes arrays, so replay() re-runs a stored
+# case as a one-element array through the same code.
+
+def _c64(re, im):
+    z = numpy.empty(numpy.shape(re), dtype='complex64')
+    z.real, z.imag = re, im
+    return z
+
+
+class Raised(Exception):
+    pass
+
+
+def _guard(what, fn, *a, **k):
+    """an exception from sarpy on a supported input is a failure of the property check, not of the harness"""
+    try:
+        return fn(*a, **k)
+    except Exception as e:        # reported, never ignored
+        raise Raised(f'{what} raised {type(e).__name__}: {e}')
+
+
+def _mp_bounds(dt, order, z32):
+    """ComplexFormatFunction(dt, MP|PM).inverse on complex64 samples z32 (1-d). Returns (failures, info): failures is a list of
+    (kind, index, message); info carries the stored pairs and counts."""
+    from sarpy.io.general.format_function import ComplexFormatFunction
+    bits = numpy.dtype(dt).itemsize * 8
+    N = 1 << bits
+    band = BAND[bits]
+    n = z32.size
+    ff = ComplexFormatFunction(dt, order, band_dimension=1)
+    ff.set_raw_shape((n, 2))
+    ff.set_formatted_shape((n,))
+    raw = _guard('inverse', ff.inverse, z32, (slice(0, n, 1),))
+    out = []
+    if raw.dtype != numpy.dtype(dt) or raw.shape != (n, 2):
+        return [('mp-quant-shape', 0, f'{order} {dt}: inverse returned dtype {raw.dtype} shape {raw.shape}')], {'raw': raw, 'in_range': 0, 'out_of_range': 0}
+    M, P = (raw[:, 0], raw[:, 1]) if order == 'MP' else (raw[:, 1], raw[:, 0])
+    z = z32.astype('complex128')
+    r = numpy.abs(z)
+    a = numpy.angle(z)
+    step = 2 * numpy.pi / N
+    inr = r <= N - 1                       # the property speaks of in-range values: |z| <= 2^b - 1
+    Mf, Pf = M.astype('float64'), P.astype('float64')
+
+    def first(mask, kind, fmt):
+        idx = numpy.nonzero(mask)[0]
+        if idx.size:
+            k = int(idx[0])
+            out.append((kind, k, f'{order} {dt}: z={complex(z32[k])!r} (|z|={r[k]:.6f}, scaled phase {(a[k] % (2 * numpy.pi)) / step:.6f}) is stored as '
+                                 f'(M={int(M[k])}, P={int(P[k])}): ' + fmt(k) + f'; {idx.size} of {n} samples'))
+
+    em = numpy.abs(Mf - r)
+    first(inr & (em > 0.5 + band), 'mp-quant-magnitude', lambda k: f'|M - |z|| = {em[k]:.6f} > 1/2')
+    d = (Pf * step - a + numpy.pi) % (2 * numpy.pi) - numpy.pi
+    first(numpy.abs(d) > (0.5 + band) * step, 'mp-quant-phase', lambda k: f'circular phase error {abs(d[k]) / step:.6f} steps > 1/2')
+    t = (a % (2 * numpy.pi)) / step
+    first((t > N - 0.5 + band) & (P != 0), 'mp-quant-wrap', lambda k: f'scaled phase above 2^{bits} - 1/2 must be stored as 0')
+    w32 = _guard('decode', ff, raw, (slice(0, n, 1), slice(0, 2, 1)), squeeze=False).reshape(-1)
+    w = w32.astype('complex128')
+    e = numpy.abs(w - z)
+    bound = 0.5 + r * numpy.pi / N
+    tol = band * (1 + r * step) + 1e-6 * r + 1e-6
+    first(inr & (e > bound + tol), 'mp-quant-decode', lambda k: f'|decode(encode z) - z| = {e[k]:.6f} > 1/2 + |z| pi/2^{bits} = {bound[k]:.6f}')
+    raw2 = _guard('inverse', ff.inverse, w32, (slice(0, n, 1),))
+    first(inr & (M != 0) & numpy.any(raw2 != raw, axis=1), 'mp-quant-idempotent',
+          lambda k: f'encode(decode(encode z)) = {raw2[k].tolist()} differs from encode z = {raw[k].tolist()}')
+    return out, {'M': M, 'P': P, 'in_range': int(numpy.count_nonzero(inr)), 'out_of_range': int(numpy.count_nonzero(~inr)),
+                 'wrapped_to_zero': int(numpy.count_nonzero((t > N - 0.5 + band) & (P == 0)))}
+
+
+def mp_bounds(dt, order, z32):
+    try:
+        return _mp_bounds(dt, order, z32)
+    except Raised as e:
+        return [('mp-quant-raised', 0, f'{e}')], {'in_range': 0, 'out_of_range': z32.size}
+
+def _mp_case(dt, order, z32, k):
+    return {'oracle': 'mp', 'dtype': dt, 'order': order, 'z': [float(z32[k].real), float(z32[k].imag)]}
+
+
+def quant_mp_u8(rng, fails, stats, tier):
+    """uint8 MP and PM, exhaustive off-grid grid: every m in 0..255 and p in 0..255 shifted by fixed offsets in (-1/2, 1/2)
+    (incl. values near +-1/2) and by one seeded random offset pair per order"""
+    off = [-0.498, -0.49, -0.25, 0.0, 0.25, 0.49, 0.498]
+    if tier != 'quick':
+        off += [-0.45, -0.375, -0.125, -0.01, 0.01, 0.125, 0.375, 0.45]
+    m, p = numpy.meshgrid(numpy.arange(256, dtype='float64'), numpy.arange(256, dtype='float64'), indexing='ij')
+    m, p = m.reshape(-1), p.reshape(-1)
+    collected = {}
+    for order in ('MP', 'PM'):
+        pairs = [(a, b) for a in off for b in off if (a, b) != (0.0, 0.0)]
+        if order == 'PM' and tier == 'quick':
+            pairs = [(a, b) for a, b in pairs if abs(a) == abs(b) or a == 0.0 or b == 0.0]
+        pairs += [(rng.uniform(-0.499, 0.499), rng.uniform(-0.499, 0.499)) for _ in range(1 if tier == 'quick' else 100)]
+        for dm, dp in pairs:
+            rr = m + dm
+            keep = (rr >= 0) & (rr <= 255)
+            zz = rr[keep] * numpy.exp(2j * numpy.pi * (p[keep] + dp) / 256.0)
+            z32 = zz.astype('complex64')
+            bad, info = mp_bounds('uint8', order, z32)
+            stats['quant_u8_samples'] = stats.get('quant_u8_samples', 0) + z32.size
+            stats['quant_u8_offset_pairs'] = stats.get('quant_u8_offset_pairs', 0) + 1
+            stats.setdefault('_classes', set()).add(('u8', order, round(dm, 6), round(dp, 6)))
+            stats['quant_out_of_range_not_judged'] = stats.get('quant_out_of_range_not_judged', 0) + info['out_of_range']
+            stats['quant_phase_wrapped_to_zero'] = stats.get('quant_phase_wrapped_to_zero', 0) + info.get('wrapped_to_zero', 0)
+            for kind, k, msg in bad:
+                fails.append({'kind': kind, 'msg': msg + f' [offsets dm={dm:.4f} dp={dp:.4f}]', 'case': _mp_case('uint8', order, z32, k)})
+            if order == 'MP' and (dm, dp) in ((0.25, -0.49), (-0.49, 0.25)):
+                collected[(dm, dp)] = (z32, info)
+    return collected
+
+
+def quant_mp_u16(rng, fails, stats, tier):
+    """uint16: boundary phases / magnitudes (deterministic block) and seeded samples"""
+    N = 1 << 16
+    nprng = numpy.random.default_rng(rng.getrandbits(32))
+    pb = numpy.array([0, 1, N // 4, N // 2, N // 2 + 1, N - 1], dtype='float64')
+    dpb = numpy.array([-0.46, -0.3, 0.0, 0.3, 0.46])
+    mb = numpy.array([0.0, 0.3, 0.46, 0.54, 0.7, 1.0, 1.46, 1.54, 100.25, N / 2 + 0.2, N - 1 - 0.54, N - 1 - 0.46, N - 1])
+    mm, pp, dd = numpy.meshgrid(mb, pb, dpb, indexing='ij')
+    blocks = [(mm.reshape(-1), (pp + dd).reshape(-1))]
+    n = (1 << 16) if tier == 'quick' else (1 << 21)
+    kind = nprng.integers(0, 4, n)
+    rm = numpy.where(kind == 0, nprng.uniform(0, 2.6, n), numpy.where(kind == 1, N - 1 - nprng.uniform(0, 2.6, n), nprng.uniform(0, N - 1, n)))
+    pk = nprng.integers(0, 3, n)
+    rp = numpy.where(pk == 0, pb[nprng.integers(0, pb.size, n)], nprng.integers(0, N, n).astype('float64'))
+    dk = nprng.integers(0, 3, n)
+    rd = numpy.where(dk == 0, nprng.choice(numpy.array([-0.46, 0.46, -0.4, 0.4]), n), nprng.uniform(-0.5, 0.5, n))
+    blocks.append((rm, rp + rd))
+    collected = None
+    for order in ('MP', 'PM'):
+        for bi, (r0, t0) in enumerate(blocks):
+            if order == 'PM' and bi == 1:
+                r0, t0 = r0[: n // 4], t0[: n // 4]
+            z32 = (r0 * numpy.exp(2j * numpy.pi * t0 / N)).astype('complex64')
+            bad, info = mp_bounds('uint16', order, z32)
+            stats['quant_u16_samples'] = stats.get('quant_u16_samples', 0) + z32.size
+            stats.setdefault('_classes', set()).add(('u16', order, bi))
+            stats['quant_out_of_range_not_judged'] = stats.get('quant_out_of_range_not_judged', 0) + info['out_of_range']
+            stats['quant_phase_wrapped_to_zero'] = stats.get('quant_phase_wrapped_to_zero', 0) + info.get('wrapped_to_zero', 0)
+            for kind_, k, msg in bad:
+                fails.append({'kind': kind_, 'msg': msg, 'case': _mp_case('uint16', order, z32, k)})
+            if order == 'MP' and bi == 1:
+                collected = (z32, info)
+    return collected
+
+
+def _table_bounds(t32, z32, expect=None):
+    """AmpLookupFunction.inverse: the stored index must be a nearest table entry (brute force over all 256 entries);
+    `expect` (optional int array): exact ties, the index that must be returned (the lower one)"""
+    from sarpy.io.complex.sicd import AmpLookupFunction
+    n = z32.size
+    ff = AmpLookupFunction('uint8', numpy.array(t32, dtype='float32'), band_dimension=1)
+    ff.set_raw_shape((n, 2))
+    ff.set_formatted_shape((n,))
+    raw = _guard('inverse', ff.inverse, z32, (slice(0, n, 1),))
+    idx = raw[:, 0].astype('int64')
+    T = numpy.asarray(t32, dtype='float64')
+    mag = numpy.abs(z32.astype('complex128'))
+    out = []
+    got = numpy.abs(T[idx] - mag)
+    best = numpy.empty(n)
+    for a in range(0, n, 8192):
+        best[a:a + 8192] = numpy.abs(T[None, :] - mag[a:a + 8192, None]).min(axis=1)
+    tol = 1e-6 * numpy.maximum(1.0, numpy.maximum(mag, numpy.abs(T[idx])))     # float32 |z| and float32 differences
+    badi = numpy.nonzero(got > best + tol)[0]
+    if badi.size:
+        k = int(badi[0])
+        out.append(('table-nearest', k, f'amplitude table: |z|={mag[k]!r} is stored as index {idx[k]} (entry {T[idx[k]]!r}, distance {got[k]:.6g}) but entry '
+                                        f'{int(numpy.argmin(numpy.abs(T - mag[k])))} is at distance {best[k]:.6g}; {badi.size} of {n} samples'))
+    if expect is not None:
+        badt = numpy.nonzero(idx != expect)[0]
+        if badt.size:
+            k = int(badt[0])
+            out.append(('table-tie', k, f'amplitude table: |z|={mag[k]!r} exactly midway between entries {int(expect[k])} and {int(expect[k]) + 1} '
+                                        f'({T[expect[k]]!r}, {T[expect[k] + 1]!r}) is stored as index {idx[k]}, the rule is the lower index; {badt.size} of {n} ties'))
+    return out, idx
+
+
+def table_bounds(t32, z32, expect=None):
+    try:
+        return _table_bounds(t32, z32, expect)
+    except Raised as e:
+        return [('table-quant-raised', 0, f'{e}')], numpy.zeros(z32.size, dtype='int64')
+
+def quant_table(rng, fails, stats, tier, tie_mismatch):
+    """every interval k in 0..254 x 256 positions inside it (the phase index varies the fraction), values below the first
+    and above the last entry, plateaus; exact ties on tables whose midpoints are exact in float32"""
+    tabs = [('linear', numpy.arange(256, dtype='float64')), ('convex', numpy.linspace(0.5, 400, 256) ** 1.5),
+            ('concave', numpy.sqrt(numpy.arange(1, 257, dtype='float64'))), ('plateaus', numpy.floor(numpy.arange(256) / 2.0) * 1.5 + 1.0)]
+    for i in range(2 if tier == 'quick' else 12):
+        tabs.append((f'random{i}', numpy.cumsum(numpy.array([rng.uniform(0.01, 3.0) for _ in range(256)]))))
+    k, p = numpy.meshgrid(numpy.arange(255), numpy.arange(256), indexing='ij')
+    k, p = k.reshape(-1), p.reshape(-1)
+    f = (p + 0.5) / 256.0
+    collected = None
+    for name, table in tabs:
+        t32 = table.astype('float32')
+        T = t32.astype('float64')
+        if not numpy.all(numpy.diff(T) >= 0):
+            continue
+        x = T[k] + f * (T[k + 1] - T[k])
+        extra = numpy.array([T[0] * 0.5, T[0] * 0.999, 0.0, T[255] * 1.001 + 0.01, T[255] * 2 + 1, T[255] + 1e-3])
+        xs = numpy.concatenate([x, extra])
+        ph = numpy.concatenate([p, numpy.arange(extra.size)]) * (2 * numpy.pi / 256.0)
+        z32 = (xs * numpy.exp(1j * ph)).astype('complex64')
+        bad, idx = table_bounds(t32, z32)
+        stats['quant_table_samples'] = stats.get('quant_table_samples', 0) + z32.size
+        stats.setdefault('_classes', set()).update({('table', name, 'interior'), ('table', name, 'outside')})
+        for kind, kk, msg in bad:
+            fails.append({'kind': kind, 'msg': f'table {name}: ' + msg, 'case': {'oracle': 'table', 'table': [float(v) for v in t32], 'z': [float(z32[kk].real), float(z32[kk].imag)]}})
+        if name == 'random0':
+            collected = (t32, z32, idx)
+    # exact ties: integer tables with even gaps, the midpoint is an integer; |z| is exact for z on an axis.  Both neighbours are
+    # nearest entries there, so a different tie rule does not violate the property: a deviation from the model's rule (lower index,
+    # Props.C08.nearestR_tie_lower) is a CORRESPONDENCE disagreement (the model no longer mirrors the code), not an oracle failure.
+    ties = [('even-gaps', numpy.cumsum(numpy.array([2 * rng.randint(1, 6) for _ in range(256)], dtype='float64'))),
+            ('arange*2', numpy.arange(256, dtype='float64') * 2)]
+    tie_cases = []
+    for name, table in ties:
+        t32 = table.astype('float32')
+        T = t32.astype('float64')
+        mid = (T[:-1] + T[1:]) / 2
+        z32 = numpy.concatenate([_c64(mid, 0 * mid), _c64(-mid, 0 * mid), _c64(0 * mid, mid), _c64(0 * mid, -mid)])
+        expect = numpy.tile(numpy.arange(255), 4)
+        bad, idx = table_bounds(t32, z32, expect)
+        stats['quant_table_ties'] = stats.get('quant_table_ties', 0) + z32.size
+        stats.setdefault('_classes', set()).add(('table', name, 'tie'))
+        for kind, kk, msg in bad:
+            if kind == 'table-tie':
+                tie_mismatch.append({'op': 'nearest-tie', 'table': name, 'msg': msg[:300]})
+            else:
+                fails.append({'kind': kind, 'msg': f'table {name}: ' + msg,
+                              'case': {'oracle': 'table', 'table': [float(v) for v in t32], 'z': [float(z32[kk].real), float(z32[kk].imag)]}})
+        tie_cases.append((t32, numpy.abs(z32.astype('complex128')), idx))
+    # a table with repeated entries at its exact entry values: every index of the plateau is a nearest entry (judged by value above);
+    # WHICH one is returned depends on searchsorted(side='left') - compared with the model through the driver (exact inputs)
+    t32 = (numpy.floor(numpy.arange(256) / 2.0) * 1.5 + 1.0).astype('float32')
+    xs = t32.astype('float64')
+    z32 = _c64(xs, 0 * xs)
+    bad, idx = table_bounds(t32, z32)
+    stats['quant_table_samples'] = stats.get('quant_table_samples', 0) + z32.size
+    stats.setdefault('_classes', set()).add(('table', 'plateaus', 'exact-entry'))
+    for kind, kk, msg in bad:
+        fails.append({'kind': kind, 'msg': 'table plateaus (exact entries): ' + msg,
+                      'case': {'oracle': 'table', 'table': [float(v) for v in t32], 'z': [float(z32[kk].real), float(z32[kk].imag)]}})
+    tie_cases.append((t32, xs, idx))
+    return collected, tie_cases
+
+
+def _ampsf_bounds(dt, sf32, z32):
+    """AmpScalingFunction(dt integer).inverse on z32 of shape (nv, ns): per component |sf*n - v| <= |sf|/2 for in-range v/sf;
+    out-of-range samples (they wrap through the cast, the property does not speak about them) are counted, not judged"""
+    from sarpy.io.phase_history.cphd import AmpScalingFunction
+    nv, ns = z32.shape
+    bits = numpy.dtype(dt).itemsize * 8
+    band = BAND[bits]
+    info = numpy.iinfo(dt)
+    ff = AmpScalingFunction(dt, amplitude_scaling=numpy.array(sf32, dtype='float32'))
+    ff.set_raw_shape((nv, ns, 2))
+    ff.set_formatted_shape((nv, ns))
+    raw = _guard('inverse', ff.inverse, z32, (slice(0, nv, 1), slice(0, ns, 1)))
+    out = []
+    if raw.dtype != numpy.dtype(dt) or raw.shape != (nv, ns, 2):
+        return [('ampsf-quant-shape', (0, 0), f'AmpSF {dt}: inverse returned dtype {raw.dtype} shape {raw.shape}')], {'in_range': 0, 'out_of_range': 0, 'raw': raw}
+    sf = numpy.asarray(sf32, dtype='float32').astype('float64')[:, None]
+    inr_all = numpy.ones((nv, ns), dtype=bool)
+    for ci, (v32, name) in enumerate(((z32.real, 'I'), (z32.imag, 'Q'))):
+        v = v32.astype('float64')
+        u = v / sf
+        inr = (u >= info.min) & (u <= info.max)
+        inr_all &= inr
+        nq = raw[..., ci].astype('float64')
+        err = numpy.abs(sf * nq - v)
+        badm = inr & (err > numpy.abs(sf) * (0.5 + band))
+        ij = numpy.argwhere(badm)
+        if ij.size:
+            i, j = (int(t) for t in ij[0])
+            out.append(('ampsf-quant', (i, j), f'AmpSF {dt} sf={float(sf[i, 0])!r}: {name}={float(v[i, j])!r} (v/sf={float(u[i, j]):.6f}) is stored as {int(raw[i, j, ci])}, '
+                                               f'|sf*n - v| = {float(err[i, j]):.6g} > |sf|/2 = {abs(float(sf[i, 0])) / 2:.6g}; {ij.shape[0]} samples'))
+    w = _guard('decode', ff, raw, (slice(0, nv, 1), slice(0, ns, 1), slice(0, 2, 1)), squeeze=False).astype('complex128')
+    e = numpy.abs(w - z32.astype('complex128'))
+    lim = numpy.abs(sf) * (1 / numpy.sqrt(2) + 2 * band) + 1e-6 * numpy.abs(z32) + 1e-9
+    ij = numpy.argwhere(inr_all & (e > lim))
+    if ij.size:
+        i, j = (int(t) for t in ij[0])
+        out.append(('ampsf-quant-decode', (i, j), f'AmpSF {dt} sf={float(sf[i, 0])!r}: z={complex(z32[i, j])!r} decodes after encoding to {complex(w[i, j])!r}, '
+                                                  f'|decode(encode z) - z| = {float(e[i, j]):.6g} > |sf|/sqrt 2 = {abs(float(sf[i, 0])) / numpy.sqrt(2):.6g}; {ij.shape[0]} samples'))
+    return out, {'in_range': int(numpy.count_nonzero(inr_all)), 'out_of_range': int(numpy.count_nonzero(~inr_all)), 'raw': raw}
+
+
+def ampsf_bounds(dt, sf32, z32):
+    try:
+        return _ampsf_bounds(dt, sf32, z32)
+    except Raised as e:
+        return [('ampsf-quant-raised', (0, 0), f'{e}')], {'in_range': 0, 'out_of_range': 0, 'raw': None}
+
+def quant_ampsf(rng, fails, stats, tier):
+    nprng = numpy.random.default_rng(rng.getrandbits(32))
+    collected = None
+    for dt in ('int8', 'int16'):
+        info = numpy.iinfo(dt)
+        sfs = numpy.array([1.0, 0.5, 3.0, 0.0625, 1.5, -0.75, rng.uniform(0.01, 4.0), 2.0 ** (-rng.randint(0, 9)) * rng.choice([1.0, 1.25, 1.75])], dtype='float32')
+        if dt == 'int8':
+            nn = numpy.arange(info.min, info.max + 1, dtype='float64')
+        else:
+            cnt = 2000 if tier == 'quick' else 40000
+            nn = numpy.concatenate([numpy.array([info.min, info.min + 1, -1, 0, 1, info.max - 1, info.max], dtype='float64'),
+                                    nprng.integers(info.min, info.max + 1, cnt).astype('float64')])
+        offs = [-0.49, -0.3, 0.0, 0.2, 0.49] + [rng.uniform(-0.499, 0.499) for _ in range(2 if tier == 'quick' else 12)]
+        if dt == 'int16':
+            offs = [-0.46, -0.3, 0.0, 0.2, 0.46] + [rng.uniform(-0.46, 0.46) for _ in range(2 if tier == 'quick' else 12)]
+        # I runs over n + offset, Q over a permutation of the same values; a band of out-of-range values on both sides
+        gi = numpy.concatenate([nn + o for o in offs] + [numpy.array([info.max + 0.7, info.max + 73.2, info.min - 0.7, info.min - 72.4])])
+        gq = numpy.roll(gi[::-1], 7)
+        sf64 = sfs.astype('float64')[:, None]
+        z32 = _c64((sf64 * gi[None, :]).astype('float32'), (sf64 * gq[None, :]).astype('float32'))
+        bad, inf = ampsf_bounds(dt, sfs, z32)
+        stats['quant_ampsf_samples'] = stats.get('quant_ampsf_samples', 0) + z32.size
+        stats.setdefault('_classes', set()).update(('ampsf', dt, float(v)) for v in sfs)
+        stats['ampsf_out_of_range_not_judged'] = stats.get('ampsf_out_of_range_not_judged', 0) + inf['out_of_range']
+        for kind, (i, j), msg in bad:
+            fails.append({'kind': kind, 'msg': msg, 'case': {'oracle': 'ampsf', 'dtype': dt, 'sf': float(sfs[i]), 'z': [float(z32[i, j].real), float(z32[i, j].imag)]}})
+        if dt == 'int8':
+            collected = (sfs, z32, inf['raw'])
+    return collected
+
+
+def _trunc_bounds(dt, order, z32):
+    """plain ComplexFormatFunction with an integer IQ / QI raw dtype: no rounding step, the cast truncates toward zero"""
+    from sarpy.io.general.format_function import ComplexFormatFunction
+    n = z32.size
+    ff = ComplexFormatFunction(dt, order, band_dimension=1)
+    ff.set_raw_shape((n, 2))
+    ff.set_formatted_shape((n,))
+    raw = _guard('inverse', ff.inverse, z32, (slice(0, n, 1),))
+    i_, q_ = (raw[:, 0], raw[:, 1]) if order == 'IQ' else (raw[:, 1], raw[:, 0])
+    out = []
+    for name, got, v32 in (('I', i_, z32.real), ('Q', q_, z32.imag)):
+        v = v32.astype('float64')
+        g = got.astype('float64')
+        # the property: no further than one quantisation step (exact arithmetic here: float32 value against an integer)
+        idx = numpy.nonzero(numpy.abs(g - v) > 1)[0]
+        if idx.size:
+            k = int(idx[0])
+            out.append(('iq-quant', k, f'{order} {dt}: {name}={float(v[k])!r} is stored as {int(got[k])}: further than one quantisation step; {idx.size} samples'))
+        # the rule of the code and of the model (truncation toward zero, Props.C08.truncZ_*): a different in-step rule (e.g. rounding)
+        # does not violate the property, it breaks the correspondence
+        idx = numpy.nonzero((numpy.abs(g - v) <= 1) & ((numpy.abs(g - v) >= 1) | (numpy.abs(g) > numpy.abs(v)) | (g * v < 0)))[0]
+        if idx.size:
+            k = int(idx[0])
+            out.append(('iq-trunc-rule', k, f'{order} {dt}: {name}={float(v[k])!r} is stored as {int(got[k])}: not the truncation toward zero (|n - v| < 1, |n| <= |v|, same sign); {idx.size} samples'))
+    return out, raw
+
+
+def trunc_bounds(dt, order, z32):
+    try:
+        return _trunc_bounds(dt, order, z32)
+    except Raised as e:
+        return [('trunc-quant-raised', 0, f'{e}')], None
+
+def quant_trunc(rng, fails, stats, tier, rule_mismatch):
+    nprng = numpy.random.default_rng(rng.getrandbits(32))
+    collected = None
+    for dt in ('int8', 'int16', 'int32'):
+        info = numpy.iinfo(dt)
+        hi = min(info.max, 2 ** 22)
+        n = 4000 if tier == 'quick' else 100000
+        base = numpy.concatenate([numpy.array([0, 1, -1, hi - 1, -hi + 1, info.min if dt != 'int32' else -hi], dtype='float64'), nprng.integers(-hi + 1, hi, n).astype('float64')])
+        fr = numpy.concatenate([numpy.array([0.0, 0.5, 0.99]), nprng.uniform(0, 0.999, base.size - 3)])
+        v = numpy.where(base >= 0, base + fr, base - fr)
+        v = numpy.clip(v, info.min if dt != 'int32' else -hi, min(info.max, hi))
+        z32 = _c64(v.astype('float32'), v[::-1].astype('float32'))
+        # float32 rounding of an int8/int16 off-grid value never reaches the next integer except at |v| >= 2^17 (int32): keep what is in range
+        ok = (numpy.abs(z32.real) <= hi) & (numpy.abs(z32.imag) <= hi)
+        z32 = z32[ok]
+        for order in ('IQ', 'QI'):
+            bad, raw = trunc_bounds(dt, order, z32)
+            stats['quant_trunc_samples'] = stats.get('quant_trunc_samples', 0) + z32.size
+            stats.setdefault('_classes', set()).add(('trunc', dt, order))
+            for kind, k, msg in bad:
+                if kind == 'iq-trunc-rule':
+                    rule_mismatch.append({'op': 'trunc-rule', 'msg': msg[:300]})
+                else:
+                    fails.append({'kind': kind, 'msg': msg, 'case': {'oracle': 'trunc', 'dtype': dt, 'order': order, 'z': [float(z32[k].real), float(z32[k].imag)]}})
+            if dt == 'int16' and order == 'IQ':
+                collected = (z32, raw)
+    return collected
 
 
 def run(tier):
@@ -216,9 +642,57 @@ def run(tier):
     exhaustive_table(rng, fails, stats, 2 if tier == 'quick' else 12)
     seen = matrix(rng, fails, stats, 300 if tier == 'quick' else 5000)
     ampsf(rng, fails, stats, 60 if tier == 'quick' else 1000)
+    # quantisation bounds for arbitrary in-range values: bound oracles on the implementation
+    got_u8 = quant_mp_u8(rng, fails, stats, tier)
+    got_u16 = quant_mp_u16(rng, fails, stats, tier)
+    got_tab, tie_cases = quant_table(rng, fails, stats, tier, disagreements)
+    got_sf = quant_ampsf(rng, fails, stats, tier)
+    got_tr = quant_trunc(rng, fails, stats, tier, disagreements)
     # model correspondence at Float
     drv = Driver()
     jobs = []
+    nq = 1500 if tier == 'quick' else 20000
+    qjobs = []      # quantised encoder: (bits, z, impl M, impl P, driver line)
+    for bits, src in ((8, list(got_u8.values())), (16, [got_u16] if got_u16 else [])):
+        for z32, info in src:
+            if 'M' not in info:
+                continue
+            pick = sorted(rng.sample(range(z32.size), min(nq, z32.size)))
+            for k in pick:
+                zz = complex(z32[k])
+                if abs(zz) > (1 << bits) - 1:
+                    continue
+                qjobs.append((bits, zz, int(info['M'][k]), int(info['P'][k]), drv.ask(f'codec encq {bits} {fb(zz.real)} {fb(zz.imag)}')))
+    sjobs = []      # AmpSF int8: (sf, z, impl I, impl Q, line)
+    if got_sf is not None and got_sf[2] is not None:
+        sfs, z32, raw = got_sf
+        for _ in range(nq):
+            i, j = rng.randrange(z32.shape[0]), rng.randrange(z32.shape[1])
+            zz = complex(z32[i, j])
+            u = (zz.real / float(sfs[i]), zz.imag / float(sfs[i]))
+            if not all(-128 <= t <= 127 for t in u):
+                continue
+            sjobs.append((float(sfs[i]), zz, int(raw[i, j, 0]), int(raw[i, j, 1]), drv.ask(f'codec ampq {fb(float(sfs[i]))} {fb(zz.real)} {fb(zz.imag)}')))
+    rjobs = []      # truncation int16 IQ
+    if got_tr is not None and got_tr[1] is not None:
+        z32, raw = got_tr
+        for k in rng.sample(range(z32.size), min(nq // 3, z32.size)):
+            rjobs.append((float(z32[k].real), int(raw[k, 0]), drv.ask(f'codec trunc {fb(float(z32[k].real))}')))
+    njobs = []      # nearest table entry, off-grid magnitudes
+    if got_tab is not None:
+        t32, z32, idx = got_tab
+        tline = ','.join(fb(t) for t in t32)
+        for k in rng.sample(range(z32.size), 150 if tier == 'quick' else 2000):
+            mg = float(numpy.abs(z32[k].astype('complex128')))
+            njobs.append((mg, int(idx[k]), drv.ask(f'codec nearest {tline} {fb(mg)}')))
+    ejobs = []      # exact ties (exact in float32 and float64): the model and the implementation must pick the same index
+    for t32, mags, idx in tie_cases:
+        tline = ','.join(fb(t) for t in t32)
+        for k in rng.sample(range(mags.size), min(mags.size, 40 if tier == "quick" else 400)):
+            ejobs.append((float(mags[k]), int(idx[k]), drv.ask(f'codec nearest {tline} {fb(float(mags[k]))}')))
+    hjobs = []      # the rounding rule itself: ties to even (exactly representable halves), and off-tie values
+    for v in [k + 0.5 for k in range(-12, 13)] + [rng.randint(-10 ** 6, 10 ** 6) + 0.5 for _ in range(40)] + [rng.uniform(-1000, 1000) for _ in range(40)]:
+        hjobs.append((v, drv.ask(f'codec rint {fb(v)}')))
     for bits, dt in ((8, 'uint8'), (16, 'uint16')):
         top = (1 << bits)
         samples = [(m, p) for m in (1, 2, top // 2, top - 1) for p in (0, 1, top // 4, top // 2, top // 2 + 1, top - 1)]
@@ -251,6 +725,53 @@ def run(tier):
             stats['model_cases'] = stats.get('model_cases', 0) + 1
             if int(ans[i]) != k:
                 disagreements.append({'table_index': k, 'model': ans[i]})
+
+        def near_half(v, band):
+            return abs((v % 1.0) - 0.5) <= band
+
+        for bits, zz, im, ip, i in qjobs:
+            stats['model_cases'] = stats.get('model_cases', 0) + 1
+            stats['model_quant_cases'] = stats.get('model_quant_cases', 0) + 1
+            qm, qp, um, ut = (bf(t) for t in ans[i].split())
+            bad_m = int(qm) != im and not near_half(um, BAND[bits])
+            bad_p = int(qp) != ip and not near_half(ut, BAND[bits])
+            if int(qm) != im or int(qp) != ip:
+                if bad_m or bad_p:
+                    disagreements.append({'op': 'encq', 'bits': bits, 'z': [zz.real, zz.imag], 'model': [int(qm), int(qp)], 'model_unrounded': [um, ut], 'impl': [im, ip]})
+                else:
+                    stats['model_near_tie'] = stats.get('model_near_tie', 0) + 1
+        for sf, zz, ii, iq, i in sjobs:
+            stats['model_cases'] = stats.get('model_cases', 0) + 1
+            stats['model_ampsf_cases'] = stats.get('model_ampsf_cases', 0) + 1
+            q1, q2, u1, u2 = (bf(t) for t in ans[i].split())
+            if (int(q1) != ii and not near_half(u1, BAND[8])) or (int(q2) != iq and not near_half(u2, BAND[8])):
+                disagreements.append({'op': 'ampq', 'sf': sf, 'z': [zz.real, zz.imag], 'model': [int(q1), int(q2)], 'impl': [ii, iq]})
+            elif int(q1) != ii or int(q2) != iq:
+                stats['model_near_tie'] = stats.get('model_near_tie', 0) + 1
+        for v, iv, i in rjobs:
+            stats['model_cases'] = stats.get('model_cases', 0) + 1
+            if int(bf(ans[i])) != iv:
+                disagreements.append({'op': 'trunc', 'v': v, 'model': bf(ans[i]), 'impl': iv})
+        if got_tab is not None:
+            T = got_tab[0].astype('float64')
+            for mg, iv, i in njobs:
+                stats['model_cases'] = stats.get('model_cases', 0) + 1
+                mv = int(ans[i])
+                if mv != iv:
+                    # the two candidates are equally near within float32 noise: a tie, either index is a nearest entry
+                    if abs(abs(T[mv] - mg) - abs(T[iv] - mg)) <= 4e-6 * max(1.0, mg):
+                        stats['model_near_tie'] = stats.get('model_near_tie', 0) + 1
+                    else:
+                        disagreements.append({'op': 'nearest', 'x': mg, 'model': mv, 'impl': iv})
+        for mg, iv, i in ejobs:
+            stats['model_cases'] = stats.get('model_cases', 0) + 1
+            stats['model_tie_cases'] = stats.get('model_tie_cases', 0) + 1
+            if int(ans[i]) != iv:
+                disagreements.append({'op': 'nearest-tie', 'x': mg, 'model': int(ans[i]), 'impl': iv})
+        for v, i in hjobs:
+            stats['model_cases'] = stats.get('model_cases', 0) + 1
+            if bf(ans[i]) != float(numpy.rint(v)) or bf(ans[i]) != float(numpy.round(numpy.float64(v))):
+                disagreements.append({'op': 'rint', 'v': v, 'model': bf(ans[i]), 'numpy': float(numpy.rint(v))})
         for l, i in pjobs:
             stats['model_cases'] = stats.get('model_cases', 0) + 1
             pairs, back = ans[i].split(' ')
@@ -259,20 +780,40 @@ def run(tier):
                 disagreements.append({'list': l, 'model': ans[i]})
     except Infra as e:
         broken.append('model driver does not build/run: ' + str(e)[:300])
+    qclasses = len(stats.pop('_classes', set()))
+    stats['quant_classes'] = qclasses
+    quant_total = sum(stats.get(k, 0) for k in ('quant_u8_samples', 'quant_u16_samples', 'quant_table_samples', 'quant_table_ties',
+                                                'quant_ampsf_samples', 'quant_trunc_samples'))
     chk.coverage.update({
-        'evaluations': stats.get('exhaustive_pairs', 0) + stats.get('matrix_cases', 0) + stats.get('ampsf_cases', 0) + stats.get('model_cases', 0),
-        'distinct_nontrivial': len(seen) + 8,
+        'evaluations': stats.get('exhaustive_pairs', 0) + stats.get('matrix_cases', 0) + stats.get('ampsf_cases', 0) + stats.get('model_cases', 0) + quant_total,
+        # stored-pair classes (8) + matrix tuples (measured) + off-grid classes (measured: uint8 order x offset pair, uint16 order x block,
+        # table x {interior, outside, tie}, AmpSF dtype x scale factor, truncation dtype x order)
+        'distinct_nontrivial': len(seen) + 8 + qclasses,
         'exhaustive': True,
         'rule': 'exhaustive: all 65536 (magnitude, phase) byte pairs x {MP, PM} x {collapsed, kept band axis} and x 5+ strictly increasing amplitude tables (linear, convex, concave, random); '
+                'off-grid exhaustive (uint8 MP and PM): every m in 0..255 x p in 0..255 shifted by every listed (dm, dp) offset pair in (-1/2, 1/2) incl. +-0.49, +-0.498 and a seeded random pair, |z| <= 255 judged; '
+                'uint16: deterministic boundary block (6 boundary phases x 5 offsets x 13 magnitudes) + 2^16 seeded samples (2^20 thorough) concentrated near magnitude 0 / 2^16-1 and near +-1/2 offsets; '
+                'amplitude tables: every interval k in 0..254 x 256 interior positions + 6 values outside the table, 6+ tables incl. one with plateaus; exact ties on 2 integer tables x 4 axis directions; '
+                'AmpSF: int8 all 256 integers x 7 offsets x 8 scale factors (one negative) + out-of-range values, int16 sampled; integer IQ/QI truncation int8/16/32; '
                 'sampled: dtype x order x band-axis position x collapsed matrix (distinct tuples counted), AmpSF vectors with offset/strided sub-regions, 16-bit MP pairs incl. boundary phases; '
-                'model correspondence at Float on boundary and random pairs',
-        'samples': [{'order': 'PM', 'dtype': 'uint8', 'pair': [200, 17]}, {'table': 'cumsum(U(0.01,3))', 'pair': [255, 128]}],
+                'model correspondence at Float on boundary and random stored pairs and on off-grid inputs (quantised encoder 8/16 bit, AmpSF int8, truncation, nearest table entry, the rounding rule on exact halves)',
+        'samples': [{'order': 'PM', 'dtype': 'uint8', 'pair': [200, 17]}, {'table': 'cumsum(U(0.01,3))', 'pair': [255, 128]},
+                    {'oracle': 'mp', 'dtype': 'uint8', 'z': '100.49 * exp(2 pi i 254.51 / 256)'}, {'oracle': 'ampsf', 'dtype': 'int8', 'sf': -0.75, 'v': '-0.75 * 17.49'}],
+        'tie_bands_steps': BAND,
         'stats': stats, 'traces_validated_against_impl': stats.get('model_cases', 0), 'disagreements_checked': len(disagreements)})
     chk.assumptions += [
         'IEEE rounding of cos/sin/atan2 in numpy is not proved: covered exhaustively for 8-bit pairs and by sampling for 16-bit',
         'zero magnitude with non-zero phase cannot be a fixed point (Props.C08.decodeMP_zero): counted, inherent in the format',
         'int32/uint32 samples are exercised up to 2^23 only: complex64 cannot carry more (stated hypothesis, not checked beyond)',
-        'Float instance of the model uses Lean core Float.cos/sin/atan2/sqrt (C library)']
+        'Float instance of the model uses Lean core Float.cos/sin/atan2/sqrt (C library)',
+        'quantisation theorems are over the reals for any nearest-integer rule; the implementation evaluates |z|, atan2, the 2^b/(2 pi) scaling and 1/sf in float32: '
+        'an input whose un-rounded value lies within the tie band of a half-integer (8 bit 1e-3, 16 bit 3e-2 steps; measured noise 3e-5 / 7.5e-3) may round either way, '
+        'oracles allow that band and the correspondence counts such cases as near-tie (IsNearest.stable is the proved reason nothing else may differ)',
+        'out-of-range inputs are not covered by the property and not judged: round(|z|) >= 2^b wraps through the unsigned cast (255.5 -> 0), AmpSF samples with '
+        'v/sf outside the signed range wrap through the C cast (no clipping in the code); they are generated, counted (quant_out_of_range_not_judged, '
+        'ampsf_out_of_range_not_judged) and skipped',
+        'the reduction of the rounded phase 2^b to 0 is done by the float -> unsigned cast of numpy on this platform (x86-64); the model states it as mod 2^b and the wrap oracle checks it',
+        'uint32 magnitude/phase quantisation is not exercised off-grid: float32 carries 24 bits, the scaled phase is not resolved to a step']
     unknown = [f for f in fails if not (f.get('key') and chk.known(f['key']))]
     for f in unknown[:5]:
         chk.violation(f['msg'], {'case': f, 'replay_cmd': './check C08 --replay <this file>'}, True)
@@ -282,9 +823,41 @@ def run(tier):
         chk.violation('proof obligation or correspondence no longer checks: ' + '; '.join(broken[:3] + [json.dumps(d, default=str)[:300] for d in disagreements[:2]]),
                       {'broken_obligations': broken, 'disagreements': disagreements[:10]}, False)
     chk.coverage['failing_inputs'] = len(fails)
+    kinds = {}
+    for f in fails:
+        kinds[f.get('kind', '?')] = kinds.get(f.get('kind', '?'), 0) + 1
+    chk.coverage['failing_kinds'] = kinds
+    chk.coverage['disagreement_ops'] = sorted({str(d.get('op', 'stored-pair')) for d in disagreements})
     return chk.finish()
 
 
 def replay(path):
-    print(json.dumps(json.load(open(path))['case'])[:2000])
-    return 1
+    """re-run a stored failing case on the implementation: prints the stored record, re-evaluates the bound oracles for the
+    quantisation kinds; returns 1 when the case still fails (or cannot be re-evaluated), 0 when it passes now"""
+    rec = json.load(open(path))
+    f = rec.get('case', {})
+    print(json.dumps(f)[:2000])
+    case = f.get('case') if isinstance(f, dict) else None
+    if not isinstance(case, dict) or 'oracle' not in case:
+        return 1
+    sarpy_guard()
+    z32 = _c64(numpy.array([case['z'][0]], dtype='float32'), numpy.array([case['z'][1]], dtype='float32'))
+    if case['oracle'] == 'mp':
+        bad, info = mp_bounds(case['dtype'], case['order'], z32)
+        print(f"stored now as M={info['M'].tolist() if 'M' in info else None} P={info['P'].tolist() if 'P' in info else None}")
+    elif case['oracle'] == 'table':
+        bad, idx = table_bounds(numpy.array(case['table'], dtype='float32'), z32, None if 'expect' not in case else numpy.array([case['expect']]))
+        print(f'stored now as index {idx.tolist()}')
+    elif case['oracle'] == 'ampsf':
+        bad, info = ampsf_bounds(case['dtype'], numpy.array([case['sf']], dtype='float32'), z32.reshape(1, 1))
+        print(f"stored now as {info['raw'].tolist()}")
+    elif case['oracle'] == 'trunc':
+        bad, raw = trunc_bounds(case['dtype'], case['order'], z32)
+        print(f'stored now as {raw.tolist()}')
+    else:
+        return 1
+    for kind, _k, msg in bad:
+        print(f'STILL FAILS [{kind}] {msg}')
+    if not bad:
+        print('bounds hold now for this input')
+    return 1 if bad else 0
